@@ -118,12 +118,28 @@ func checkMeta(c Case) error {
 			}
 		}
 	}
+	// The same bytes in a buffer the caller keeps reusing (same address, often
+	// the same length as the previous graphic): same answers.
+	if n := len(c.Bytes); n <= len(reuse) {
+		copy(reuse[:n], c.Bytes)
+		vb3, verr3 := decode.DecodeViewBox(reuse[:n])
+		if (verr3 == nil) != (verr == nil) || (verr == nil && !sameVB(vb3, [4]float32{vb.MinX, vb.MinY, vb.MaxX, vb.MaxY})) {
+			return harness.Violatef("c13/decodeviewbox-reused-buffer", "DecodeViewBox on the same bytes in a reused buffer gives %v,%v; on a fresh slice %v,%v", vb3, verr3, vb, verr)
+		}
+		rec3 := &ops.Recorder{}
+		err3 := decode.Decode(rec3, reuse[:n])
+		if (err3 == nil) != (err == nil) || ops.DiffOps(rec3.Ops, rec.Ops) != "" {
+			return harness.Violatef("c13/decode-reused-buffer", "Decode on the same bytes in a reused buffer differs from a fresh slice")
+		}
+	}
 	// Input untouched.
 	if string(src) != string(c.Bytes) {
 		return harness.Violatef("c13/input-modified", "input modified")
 	}
 	return nil
 }
+
+var reuse [1024]byte
 
 func palDiff(a, b [64]color.RGBA) string {
 	for i := range a {
